@@ -314,6 +314,18 @@ def extract(repo, failures):
         re.search(r"msg\.find_first_of\s*\(\s*'\\n'\s*,\s*start\s*\)", ml) and
         re.search(r"std::string_view\s*\(\s*msg\.data\(\)\s*\+\s*start\s*,\s*msg\.size\(\)\s*-\s*start\s*\)\s*\)\s*;\s*break\s*;", ml) and
         re.search(r"std::string_view\s*\(\s*msg\.data\(\)\s*\+\s*start\s*,\s*end\s*-\s*start\s*\)\s*\)\s*;\s*start\s*=\s*end\s*\+\s*1\s*;", ml))
+    # sink override pattern: chosen per sink on the write path by the sink's *options*, its formatter created there on
+    # first use — and nowhere on the path that sets up / shares the logger's formatter
+    wls = norm(func_body(bsrc, r"void\s+_write_log_statement\s*\([^)]*\)\s*const\s*\{") or "")
+    i_for = wls.find("for(auto&sink:transit_event.logger_base->sinks)")
+    m_sel = re.search(r"if\(sink->_override_pattern_formatter_options(?:\.has_value\(\))?\)\{", wls)
+    m_new = re.search(r"if\(!sink->_override_pattern_formatter\)\{sink->_override_pattern_formatter=std::make_shared<PatternFormatter>\("
+                      r"\*sink->_override_pattern_formatter_options\);\}", wls)
+    i_use = wls.find("log_to_write=sink->_override_pattern_formatter->format(")
+    i_out = wls.find("sink->write_log(")
+    d["overrideChosenOnWritePath"] = bool(m_sel and m_new and 0 <= i_for < m_sel.start() < m_new.start() < i_use < i_out
+                                          and wls.count("_override_pattern_formatter->format(") == 1
+                                          and "_override_pattern_formatter" not in norm(disp))
     rt = func_body(bsrc, r"void\s+_apply_runtime_metadata\s*\([^)]*\)\s*\{") or ""
     d["runtimeSplitsOnSeparator"] = bool(
         re.search(r"delimiter\s*\{\s*QUILL_MAGIC_SEPARATOR\s*\}", rt) and
@@ -350,7 +362,7 @@ def extract(repo, failures):
               "fieldStartIsPercentParen", "fieldEndIsFirstCloseParen", "specStartsAtFirstColon", "unterminatedThrows",
               "unknownThrows", "rescansFromStart", "slotIsArgIdxPostIncrement", "defaultAddMetadata", "colonIsLastColon",
               "fileNameAfterLastSlash", "multiLineGuard", "stripsOneTrailingNewline", "splitLoop", "runtimeSplitsOnSeparator",
-              "runtimeMetadataArgs", "runtimeMacroOrder"):
+              "runtimeMetadataArgs", "runtimeMacroOrder", "overrideChosenOnWritePath"):
         L.append("def %s : Bool := %s" % (k, lean_bool(d[k])))
     for k in ("replacementPlain", "replacementSpecOpen", "replacementSpecClose", "namedArgsKeyValueSep", "namedArgsPairSep",
               "defaultPattern", "metaSourceLocation", "metaLine", "metaFullPath", "metaFileName", "metaShort", "runtimeFileLineJoin"):
@@ -368,7 +380,7 @@ FALLBACK = ({}, "\n".join([
         "fieldStartIsPercentParen", "fieldEndIsFirstCloseParen", "specStartsAtFirstColon", "unterminatedThrows",
         "unknownThrows", "rescansFromStart", "slotIsArgIdxPostIncrement", "defaultAddMetadata", "colonIsLastColon",
         "fileNameAfterLastSlash", "multiLineGuard", "stripsOneTrailingNewline", "splitLoop", "runtimeSplitsOnSeparator",
-        "runtimeMetadataArgs", "runtimeMacroOrder")] +
+        "runtimeMetadataArgs", "runtimeMacroOrder", "overrideChosenOnWritePath")] +
     ["def %s : String := \"\"" % k for k in (
         "replacementPlain", "replacementSpecOpen", "replacementSpecClose", "namedArgsKeyValueSep", "namedArgsPairSep",
         "defaultPattern", "metaSourceLocation", "metaLine", "metaFullPath", "metaFileName", "metaShort", "runtimeFileLineJoin")] +
